@@ -145,6 +145,16 @@ def generate(rng, tier, run):
 # ---------------------------------------------------------------------------
 # the invariant
 
+def same(x, y):
+    """Numerically equal (beancount's own equality of inventories / amounts): 79.93 == 79.930.  Decimal
+    exponents depend on the order in which numbers were added and are not part of the property."""
+    if x is None or y is None:
+        return x is None and y is None
+    if type(x) is not type(y):
+        return False
+    return x == y
+
+
 def wrap(inv, ref, pos=None):
     if ref == 'only(cost_currency, balance)':
         # NULL where the first operand is NULL; the running balance advances on every selected row all the same
@@ -181,10 +191,10 @@ def check_prefix(desc, rows, refs, full=None):
                 run.add_position(full[j])
                 j += 1
         for bi, ref in zip(ib, refs):
-            exp = canon(wrap(run, ref, row[ipos]))
-            got = canon(row[bi])
-            if got != exp:
-                problems.append({'kind': 'balance-not-prefix-sum', 'row': ri, 'ref': ref, 'expected': exp, 'observed': got})
+            expv = wrap(run, ref, row[ipos])
+            if not same(row[bi], expv):
+                problems.append({'kind': 'balance-not-prefix-sum', 'row': ri, 'ref': ref, 'expected': canon(expv),
+                                 'observed': canon(row[bi])})
                 if len(problems) >= 3:
                     return problems
     return problems
@@ -365,10 +375,10 @@ def execute(case, keep_log=False):
                         stats['companion_failed'] = 1
                 if cr is not None:
                     i0 = names.index('b0')
-                    exp = canon(wrap(cr[0][0], sub['refs'][0], rows[-1][names.index('pos')]))
-                    got = canon(rows[-1][i0])
-                    if exp != got:
-                        violation('last-balance-not-sum', 'subject', {'expected': exp, 'observed': got, 'companion': comp})
+                    expv = wrap(cr[0][0], sub['refs'][0], rows[-1][names.index('pos')])
+                    if not same(rows[-1][i0], expv):
+                        violation('last-balance-not-sum', 'subject', {'expected': canon(expv), 'observed': canon(rows[-1][i0]),
+                                                                      'companion': comp})
             stats['nontrivial'] = bool(len(rows) >= 2 and (S.probes['scan_between_balance_refs'] or S.probes['nested_scans']))
         # riders: homomorphism facts, evaluated in the same (interfered) world
         if case.get('riders'):
@@ -391,12 +401,12 @@ def execute(case, keep_log=False):
                 acc = inventory.Inventory()
                 for _, s_ in grp:
                     acc.add_inventory(s_)
-                if canon(acc) != canon(tot[0][0]):
+                if not same(acc, tot[0][0]):
                     violation('rider-partition-sum', 'riders', {'expected': canon(tot[0][0]), 'observed': canon(acc)})
                 a, b, c_, d = uc[0]
-                if canon(a) != canon(b):
+                if not same(a, b):
                     violation('rider-units-homomorphism', 'riders', {'units(sum)': canon(a), 'sum(units)': canon(b)})
-                if canon(c_) != canon(d):
+                if not same(c_, d):
                     violation('rider-cost-homomorphism', 'riders', {'cost(sum)': canon(c_), 'sum(cost)': canon(d)})
                 # convert()/value(): equal up to decimal rounding (28 digits) - tolerant comparison
                 for name, x, y in (('convert-USD', cv[0][0], cv[0][1]), ('convert-EUR', cv[0][2], cv[0][3]),
@@ -445,7 +455,7 @@ def execute(case, keep_log=False):
                         kind = nm.rstrip('0123456789')
                         exp = {'f': g['first'], 'l': g['last'], 's': g['sum'], 'u': g['sum'].reduce(convert.get_units),
                                'n': g['n']}[kind]
-                        if canon(cell) != canon(exp):
+                        if not (cell == exp if kind == 'n' else same(cell, exp)):
                             bad = {'stmt': text, 'group': row[0], 'column': nm, 'expected': canon(exp), 'observed': canon(cell),
                                    'rows_in_group': g['n']}
                             break
